@@ -161,6 +161,13 @@ CLAIMED = {
             "never-indexed marking; lower-case / trimmed / no connection-specific fields checked "
             "directly on what was emitted; each normalise/validate combination only for the "
             "rules it promises.", "7/C14"),
+    'C13': ("send_headers / push_stream executed symbolically from every distinct observer state "
+            "(solver-chosen block kind, end_stream, priority arguments incl. invalid ones) and "
+            "with a fully symbolic trailing field, against an encoder model that records every "
+            "field at the moment it is pulled from the lazy pipeline; HEADER_TABLE_SIZE symbolic",
+            "A raising call has shown nothing to the encoder and not resized its table; a "
+            "succeeding call calls it exactly once; the peer's HEADER_TABLE_SIZE reaches the "
+            "encoder for every value and setting combination.", "7/C13"),
 }
 
 NOT_YET = {}
